@@ -93,7 +93,10 @@ type Tree struct {
 // FaultError is the sentinel returned by an injected fault.
 type FaultError struct{ K int }
 
-func (f *FaultError) Error() string { return fmt.Sprintf("injected-data-tree-fault-#%d", f.K) }
+// (the text holds per-cent signs, as the message of a real data tree may: "cpu%d", "100% of ...")
+func (f *FaultError) Error() string {
+	return fmt.Sprintf("injected-data-tree-fault-#%d (100%%d of %%s, 5%%)", f.K)
+}
 
 // Entry implements xpath.Entry.
 type Entry struct {
